@@ -284,11 +284,19 @@ class Prop(object):
         """True / False / None(not applicable). Judged on the implementation's output."""
         return None
 
+    def spec_case(self, case, impl_obs):
+        """Optionally a Case for an extracted `*_spec` operator that judges impl_obs (result: bool or None)."""
+        return None
+
     def observe(self, case, obs):
         """Project an observation to what the property is about (identity by default)."""
         return obs
 
     def nontrivial(self, case):
+        return True
+
+    def valid(self, case):
+        """Is the case inside the property's domain? (the shrinker must not leave it)"""
         return True
 
     def search(self, rng, broken, runner):
@@ -307,6 +315,32 @@ class Prop(object):
 
     def extra_evidence(self):
         return {}
+
+
+def obs_rows(iterable, limit=100000):
+    """Iterate a table and encode what it delivered: rows (as tuples) and the exception, if any."""
+    rows = []
+    err = None
+    try:
+        for r in iterable:
+            rows.append(('tu', tuple(codec.canon(x) for x in r)))
+            if len(rows) > limit:
+                break
+    except Exception as e:   # noqa
+        err = obs_exc(e)
+    t = ('li', tuple(rows))
+    if err is None:
+        return t
+    return ('tu', (codec.t_str('!partial'), t, err))
+
+
+def obs_call(f):
+    try:
+        return codec.canon(f())
+    except codec.Unsupported:
+        raise
+    except Exception as e:   # noqa
+        return obs_exc(e)
 
 
 def obs_exc(e):
@@ -426,7 +460,24 @@ def run_property(prop, tier, seed, replay=None):
 
     def process(batch):
         models = runner.run(batch)
-        for c, m in zip(batch, models):
+        impls = []
+        for c in batch:
+            try:
+                impls.append(prop.impl(c))
+            except codec.Unsupported as e:
+                impls.append(('!unsupported', str(e)))
+        spec_cs = []
+        for c, o in zip(batch, impls):
+            sc = None
+            if not (isinstance(o, tuple) and o and o[0] == '!unsupported'):
+                try:
+                    sc = prop.spec_case(c, o)
+                except codec.Unsupported:
+                    sc = None
+            spec_cs.append(sc)
+        spec_res = dict(zip([i for i, sc in enumerate(spec_cs) if sc is not None],
+                            runner.run([sc for sc in spec_cs if sc is not None])))
+        for idx, (c, m) in enumerate(zip(batch, models)):
             stats['evaluations'] += 1
             k = hashlib.sha1(c.key().encode()).hexdigest()
             if k not in stats['distinct']:
@@ -434,10 +485,7 @@ def run_property(prop, tier, seed, replay=None):
                 if prop.nontrivial(c):
                     stats['nontrivial'] += 1
             stats['ops'][c.op] = stats['ops'].get(c.op, 0) + 1
-            try:
-                obs = prop.impl(c)
-            except codec.Unsupported as e:
-                obs = ('!unsupported', str(e))
+            obs = impls[idx]
             if isinstance(obs, tuple) and obs and obs[0] == '!unsupported':
                 stats['errors']['unsupported'] = stats['errors'].get('unsupported', 0) + 1
                 continue
@@ -451,6 +499,12 @@ def run_property(prop, tier, seed, replay=None):
                 corr_breaks.append((c, obs, m, 'model runner error: %s' % (m[1],)))
                 continue
             sv = prop.spec(c, obs, m)
+            if idx in spec_res and sv is not False:
+                sr = spec_res[idx]
+                if sr[0] == 'b':
+                    sv2 = (sr[1] == 1)
+                    sv = sv2 if (sv is None or sv2 is False) else sv
+                    stats['spec_ops'] = stats.get('spec_ops', 0) + 1
             if sv is False:
                 violations.append((c, obs, m, 'spec false on implementation output'))
                 continue
@@ -634,7 +688,13 @@ def shrink_case(prop, runner, case, budget=300):
             m = runner.run([c])[0]
             if m[0] == '!runner-error':
                 return False
-            return prop.spec(c, obs, m) is False
+            if prop.spec(c, obs, m) is False:
+                return True
+            sc = prop.spec_case(c, obs)
+            if sc is not None:
+                sr = runner.run([sc])[0]
+                return sr[0] == 'b' and sr[1] == 0
+            return False
         except Exception:
             return False
 
@@ -651,7 +711,7 @@ def shrink_case(prop, runner, case, budget=300):
                 c2 = Case(cur.op, codec.uncanon(cand), cur.meta)
             except Exception:
                 continue
-            if fails(c2):
+            if prop.valid(c2) and fails(c2):
                 cur = c2
                 improved = True
                 break
